@@ -210,6 +210,9 @@ pub enum PanicSite {
     /// having taken its k-th chunk element, counted over the whole run), so that the chunk is
     /// dropped by the unwinding (C08: "an unconsumed chunk is dropped")
     Consumer,
+    /// the destructor of the element with id k panics (once, and not while the thread is
+    /// unwinding already), wherever that element happens to be destroyed
+    ElemDrop,
 }
 
 #[derive(Clone, Debug, Serialize, Deserialize)]
@@ -1434,6 +1437,10 @@ pub fn execute(cfg: &RunCfg, run_no: u32) -> RunRecord {
     let ledger_n = if cfg.kind.is_range() { 0 } else { n + tail };
     elems::ledger_reset(ledger_n, run_no, clone_panic);
     elems::probe_reset(probe_panic);
+    elems::set_drop_panic(match cfg.panic {
+        Some((PanicSite::ElemDrop, k)) => Some(k),
+        _ => None,
+    });
     alloc::reset();
     alloc::enable(true);
     let heap = cfg.heap_bytes;
